@@ -1,4 +1,6 @@
 import ReplicatProofs.Lemmas.SchedSnap
+import ReplicatProofs.Lemmas.SchedLocks
+import ReplicatProofs.Lemmas.SchedFin
 import ReplicatProofs.Properties.C01
 /-!
 # C09 — snapshot and restore do not depend on thread or I/O scheduling
@@ -249,5 +251,164 @@ theorem abort_no_snapshot (total n : Nat) (evs : List SnapEv) (s : Snap)
 example : (run Snap.step (Snap.init 3 2)
     [.put, .put, .take 0, .take 1, .put, .finish 1 true, .take 1, .prodStop, .finish 0 true, .finish 1 true, .prodVisible,
      .exit 0, .exit 1, .upload]).map (fun s => (s.processed, s.uploaded, s.finished)) = some ([2, 0, 1], true, true) := by decide
+
+/-! ## S3 — restore: per-file write locks -/
+
+/-- **At most one writer per file; the lock of a file is stable while somebody counts on it.**  Along every schedule of the
+writer jobs (any number of jobs and files, `glock` also taken by loaders): no `KeyError`; two jobs inside `with flock:` for the same
+file are the same job; and every job between its registration and its un-registration uses exactly the lock object the table maps
+its file to, with a positive reference count. -/
+theorem file_lock_mutex (fileOf : Nat → Nat) (evs : List LockEv) (σ : Locks)
+    (h : run (Locks.step Gen.flockDelAtZero fileOf) Locks.init evs = some σ) :
+    σ.err = false ∧
+    (∀ j₁ j₂, fileOf j₁ = fileOf j₂ → inCrit (σ.pc j₁) = true → inCrit (σ.pc j₂) = true → j₁ = j₂) ∧
+    (∀ j, registered (σ.pc j) = true → ∃ l, σ.lk j = some l ∧ σ.flocks (fileOf j) = some l ∧ 0 < σ.refc (fileOf j)) := by
+  have hz : Gen.flockDelAtZero = true := by decide
+  rw [hz] at h
+  have inv := locks_reach_inv fileOf evs σ h
+  have hreg : ∀ j, registered (σ.pc j) = true → ∃ l, σ.lk j = some l ∧ σ.flocks (fileOf j) = some l ∧ 0 < σ.refc (fileOf j) := by
+    intro j hr
+    have hm := (inv.regs_iff j).mp hr
+    have hlk := inv.lk j hr
+    cases hf : σ.flocks (fileOf j) with
+    | none => have := (inv.fl_none _).mp hf; rw [this] at hm; cases hm
+    | some l =>
+      refine ⟨l, by rw [hlk, hf], rfl, ?_⟩
+      rw [inv.refc]
+      exact length_pos_of_mem hm
+  refine ⟨inv.noerr, ?_, hreg⟩
+  intro j₁ j₂ hf h1 h2
+  have r1 : registered (σ.pc j₁) = true := by rw [inCrit_iff] at h1; rw [registered_iff]; omega
+  have r2 : registered (σ.pc j₂) = true := by rw [inCrit_iff] at h2; rw [registered_iff]; omega
+  obtain ⟨l1, a1, b1, _⟩ := hreg j₁ r1
+  obtain ⟨l2, a2, b2, _⟩ := hreg j₂ r2
+  rw [hf, b2] at b1
+  cases b1
+  obtain ⟨l1', c1, d1⟩ := inv.crit j₁ h1
+  obtain ⟨l2', c2, d2⟩ := inv.crit j₂ h2
+  rw [a1] at c1; cases c1
+  rw [a2] at c2; cases c2
+  rw [d1] at d2
+  cases d2; rfl
+
+/-- *Negation witness for an unguarded delete* (what the model says when the table entry is dropped without looking at the
+count): job 0 leaves, job 1 still holds the old lock object, job 2 creates a new one — two writers inside the same file. -/
+theorem file_lock_needs_refcount_witness :
+    (run (Locks.step false (fun _ => 0)) Locks.init
+      [.gAcq 0, .look 0, .commit 0, .gRel 0, .fAcq 0, .gAcq 1, .look 1, .commit 1, .gRel 1, .write 0, .fRel 0, .gAcq 0, .unreg 0, .gRel 0,
+       .fAcq 1, .gAcq 2, .look 2, .commit 2, .gRel 2, .fAcq 2]).map
+      (fun σ => (inCrit (σ.pc 1), inCrit (σ.pc 2), σ.lk 1, σ.lk 2)) = some (true, true, some 0, some 1) := by decide
+
+/-! ## S3 — restore: pending digest sets and the finaliser -/
+
+/-- **Every file is finalised exactly once, after all its writes** — for the code that decides under the lock
+(`Gen.finaliseDecidedUnderLock = true`, discharged by `decide`), for every well-formed loader table and every schedule:
+no loader ever raises `KeyError`; no file is finalised twice; whenever a file has been finalised or a loader is about to finalise
+it, every loader that references the file has completed all of its writes; and when all loaders are done every referenced file
+has been finalised exactly once and its metadata entry is gone. -/
+theorem finalise_once_after_writes (L : List Loader) (hwf : LoadersWF L) (evs : List FinEv) (σ : Fin)
+    (h : run (Fin.step Gen.finaliseDecidedUnderLock L) (Fin.init L) evs = some σ) :
+    (∀ d, σ.phase d ≠ LPhase.failed) ∧ (∀ f, σ.finCount f ≤ 1) ∧
+    (∀ f, (σ.finCount f = 1 ∨ ∃ d, poppingFile (σ.phase d) = some f) → ∀ l ∈ L, f ∈ l.refs → σ.written l.d ~ l.refs) ∧
+    ((∀ l ∈ L, σ.phase l.d = LPhase.done) → ∀ l ∈ L, ∀ f ∈ l.refs, σ.finCount f = 1 ∧ σ.hasMeta f = false) := by
+  have hu : Gen.finaliseDecidedUnderLock = true := by decide
+  rw [hu] at h
+  obtain ⟨core, aux⟩ := fin_reach_inv L hwf evs σ h
+  have hcnt : ∀ f, σ.finCount f ≤ 1 := by
+    intro f
+    by_cases h0 : σ.finCount f = 0
+    · omega
+    · have := (core.cnt1 f h0).1; omega
+  refine ⟨aux.nofail, hcnt, ?_, ?_⟩
+  · intro f hfin l hl hfr
+    have hpe : σ.pending f = [] := by
+      rcases hfin with h1 | ⟨d, h1⟩
+      · exact (core.cnt1 f (by omega)).2.1
+      · exact (core.pop1 d f h1).2.1
+    have hlook := lookup_of_mem hwf.1 hl
+    have hfp : f ∈ l.paths := (hwf.2 l hl).2.2 f hfr
+    have hnot : f ∉ owesD L σ.phase l.d := by
+      rw [← core.pend f l.d, hpe]; simp
+    have hpast : pastWriting (σ.phase l.d) = true := by
+      simp only [owesD, hlook] at hnot
+      cases hph : σ.phase l.d with
+      | dl => rw [hph] at hnot; exact absurd hfp hnot
+      | writing t => rw [hph] at hnot; exact absurd hfp hnot
+      | _ => rfl
+    exact (aux.wr l.d l hlook).2.2 hpast
+  · intro hdone l hl f hfr
+    have hfp : f ∈ l.paths := (hwf.2 l hl).2.2 f hfr
+    have hphase : ∀ d, σ.phase d = LPhase.done := by
+      intro d
+      cases hd : lookupLoader L d with
+      | none => exact aux.absent d hd
+      | some l' =>
+        obtain ⟨h1, h2⟩ := lookup_some hd
+        rw [← h2]; exact hdone l' h1
+    have hpe : σ.pending f = [] := by
+      apply eq_nil_iff_forall_not_mem.mpr
+      intro d hd
+      rw [core.pend f d] at hd
+      simp only [owesD] at hd
+      cases hl' : lookupLoader L d with
+      | none => rw [hl'] at hd; cases hd
+      | some l' => rw [hl', hphase d] at hd; cases hd
+    have h1 : σ.finCount f = 1 := by
+      rcases core.tok f hpe with p | p | ⟨d, p⟩
+      · have : l.d ∈ pending₀ L f := (mem_pending₀ hwf.1 f l.d).mpr ⟨l, lookup_of_mem hwf.1 hl, hfp⟩
+        rw [p] at this; cases this
+      · exact p
+      · rw [hphase d] at p; cases p
+    refine ⟨h1, ?_⟩
+    cases hm : σ.hasMeta f with
+    | false => rfl
+    | true => have := (core.hmeta f).mp hm; omega
+
+/-- **D4 — the code before 6be86ef finalises twice.**  With the emptiness test outside the lock (`underLock = false`) there is a
+schedule of two loaders that reference one file in which both see the empty set; the second `files_metadata.pop` raises
+`KeyError` (loader 1 ends in `failed`).  Replayed on the real pre-fix code by the harness (sig `restore:double-finalise`). -/
+theorem finalise_twice_witness :
+    (run (Fin.step false [⟨0, [0], [0]⟩, ⟨1, [0], [0]⟩]) (Fin.init [⟨0, [0], [0]⟩, ⟨1, [0], [0]⟩])
+      [.downloaded 0, .downloaded 1, .write 0 0, .write 1 0, .joined 0, .joined 1, .remove 0 0, .remove 1 0,
+       .test 0 0, .test 1 0, .pop 0 0, .pop 1 0]).map
+      (fun σ => (σ.phase 0, σ.phase 1, σ.finCount 0)) = some (LPhase.fin [], LPhase.failed, 1) := by decide
+
+/-- non-vacuity: the same two loaders under the current code — the corresponding schedule is legal and ends well -/
+example :
+    (run (Fin.step Gen.finaliseDecidedUnderLock [⟨0, [0], [0]⟩, ⟨1, [0], [0]⟩]) (Fin.init [⟨0, [0], [0]⟩, ⟨1, [0], [0]⟩])
+      [.downloaded 0, .downloaded 1, .write 0 0, .write 1 0, .joined 0, .joined 1, .remove 0 0, .remove 1 0,
+       .pop 1 0, .finish 0, .finish 1]).map
+      (fun σ => (σ.phase 0, σ.phase 1, σ.finCount 0, σ.hasMeta 0)) = some (LPhase.done, LPhase.done, 1, false) := by decide
+
+example : LoadersWF [⟨0, [0, 0, 1], [0, 1]⟩, ⟨1, [0], [0]⟩] := by decide
+
+/-! ## The result does not depend on the schedule -/
+
+/-- **Same manifest and same restored bytes under every schedule** (cites `Replicat.C01.records_perm` and
+`Replicat.C01.restore_file_exact`).  Take ANY schedule of the snapshot pipeline that ends with all workers exited; the order in
+which `_chunk_done` ran is `s.processed.reverse`.  The references recorded for every file are a permutation of those of the
+sequential run, and restoring the file from them — the writer jobs executed in ANY order `ws`, whatever was at the target path
+before — yields exactly the file's bytes. -/
+theorem result_schedule_independent (n : Nat) (hn : 0 < n) (evs : List SnapEv) (st : Snap)
+    (strm : Bytes) (lens : List Nat) (hsum : lens.sum = strm.length)
+    (h : run Snap.step (Snap.init lens.length n) evs = some st) (hex : allExited st.workers = true)
+    (files : List Span) (hs : SpansSorted files) (i : Nat) (f : Span) (hf : files[i]? = some f) (hle : f.1 ≤ f.2) (hfe : f.2 ≤ strm.length)
+    (old : Option Bytes) (ws : List PlanEntry)
+    (hws : ws ~ plan (refsOfIn (records files (spansFrom 0 lens) st.processed.reverse) i)) :
+    refsOfIn (records files (spansFrom 0 lens) st.processed.reverse) i ~ fileRefs f 0 (spansFrom 0 lens) ∧
+    restoreFile (chunksOf strm lens) old (refsOfIn (records files (spansFrom 0 lens) st.processed.reverse) i) ws
+      = some (slice strm f.1 f.2) := by
+  have hproc := (snapshot_all_processed lens.length n hn evs st h hex).1
+  have hlen : (spansFrom 0 lens).length = lens.length := by
+    have : ∀ (o : Nat) (l : List Nat), (spansFrom o l).length = l.length := by
+      intro o l
+      induction l generalizing o with
+      | nil => rfl
+      | cons a t ih => simp [spansFrom, ih]
+    exact this 0 lens
+  have horder : st.processed.reverse ~ List.range (spansFrom 0 lens).length := by
+    rw [hlen]; exact (reverse_perm _).trans hproc
+  have hperm := C01.records_perm files (spansFrom 0 lens) hs st.processed.reverse horder i f hf
+  exact ⟨hperm, C01.restore_file_exact strm f hle lens hsum hfe _ hperm old ws hws⟩
 
 end Replicat.C09
